@@ -386,6 +386,11 @@ func scnReify(rep *Report, rng *Rng, tier string, outdir string) {
 		add(ufsData(2, nil, false, u(fsz), []uint64{1 << 63, 1<<64 - 1}, nil, nil), true, fmt.Sprintf("file-lying-blocksizes-%d", i))
 	}
 	add(ufsData(2, nil, false, u(5), []uint64{2}, nil, nil), true, "file-short-blocksizes")
+	for i, fsz := range []uint64{1 << 63, 1<<64 - 1, 3, 0, 1 << 40} {
+		// inline bytes under a FileSize that says something else (smaller, zero, negative as int64, huge)
+		add(ufsData(2, []byte("inline-data"), true, u(fsz), nil, nil, nil), true, fmt.Sprintf("file-inline-lying-size-%d", i))
+		add(ufsData(0, []byte("inline-data"), true, u(fsz), nil, nil, nil), true, fmt.Sprintf("raw-inline-lying-size-%d", i))
+	}
 	linkSets := [][]RLink{
 		nil,
 		{{Name: s(""), Tsize: i64(2), Content: "ab"}, {Name: s(""), Tsize: i64(3), Content: "cde"}},
